@@ -54,6 +54,35 @@ class CustomBackendError(Exception):
     """a user-defined exception class with the usual one-string constructor"""
 
 
+class _Response:
+    def __init__(self, status, reason):
+        self.status, self.reason = status, reason
+
+
+class ResponseBackendError(Exception):
+    """built from a response object (as HTTP client libraries do): the constructor fails with AttributeError on a str"""
+
+    def __init__(self, response):
+        super().__init__("%d %s" % (response.status, response.reason))
+        self.response = response
+
+
+class StrictBackendError(Exception):
+    """validates its argument: the constructor fails with ValueError on anything but a mapping"""
+
+    def __init__(self, fields):
+        if not isinstance(fields, dict):
+            raise ValueError("fields must be a mapping")
+        super().__init__(", ".join("%s=%s" % kv for kv in sorted(fields.items())))
+
+
+class TwoArgBackendError(Exception):
+    """needs two positional arguments: the constructor fails with TypeError on a single message"""
+
+    def __init__(self, code, message):
+        super().__init__("[%s] %s" % (code, message))
+
+
 def make_fault(cls, text):
     if cls == "Exception":
         return Exception(text)
@@ -65,10 +94,17 @@ def make_fault(cls, text):
         return UnicodeEncodeError("ascii", "\xe9", 0, 1, text)
     if cls == "Custom":
         return CustomBackendError(text)
+    if cls == "Response":
+        return ResponseBackendError(_Response(503, text))
+    if cls == "Strict":
+        return StrictBackendError({"why": text})
+    if cls == "TwoArg":
+        return TwoArgBackendError(7, text)
     raise ValueError(cls)
 
 
-FAULT_CLASSES = ["Exception", "KeyError", "OSError", "UnicodeEncodeError", "Custom"]
+# the constructors of the last four cannot be called with one message: TypeError, AttributeError, ValueError, TypeError
+FAULT_CLASSES = ["Exception", "KeyError", "OSError", "UnicodeEncodeError", "Custom", "Response", "Strict", "TwoArg"]
 
 
 def canon_for_model(e):
